@@ -96,10 +96,10 @@ Definition rec_end (r : rec) : outcome Z :=
   if negb (Z.land (r_flags r) sam_Unmapped =? 0) || (zlen (r_cigar r) =? 0) then Ok (r_pos r + 1)
   else rec_end_loop (r_cigar r) (r_pos r) (r_pos r).
 
+(** [sam_Record_Bin] is the translation of Record.Bin regenerated from the Go
+    source (gen/emit_c16.go), so the bin bytes follow the code as it is. *)
 Definition rec_bin (r : rec) : outcome Z :=
-  if Z.land (r_flags r) (Z.lor sam_Unmapped sam_MateUnmapped) =? Z.lor sam_Unmapped sam_MateUnmapped
-  then Ok 4680
-  else obind (rec_end r) (fun e => internal_BinFor (r_pos r) e).
+  sam_Record_Bin (r_flags r) (r_pos r) (rec_end r).
 
 (** * buildAux *)
 
